@@ -741,9 +741,26 @@ def fcut(vc, name, goal, hyps):
     return goal
 
 
+class Univ:
+    """a universal fact  forall v in [lo, hi). body(v)  together with its body, so that proof scripts can eliminate the
+    quantifier WITHOUT the solver: inst(i) checks that the fact is (syntactically) on the path condition and adds its instance"""
+
+    def __init__(self, lo, hi, body, var='i'):
+        self.lo, self.hi, self.body, self.var = lo, hi, body, var
+        self.q = forall_range(lo, hi, body, var)
+
+    def inst(self, vc, i):
+        if not any(z3.eq(self.q, p) for p in vc.pc):
+            raise OutOfSubset('proof script: instantiated universal fact is not on the path condition')
+        lo = z3.IntVal(self.lo) if isinstance(self.lo, int) else self.lo
+        f = z3.Implies(z3.And(lo <= i, i < self.hi), self.body(i))
+        vc.assume(f)
+        return f
+
+
 def forall_intro(vc, name, lo, hi, body, steps, var='i'):
     """universal generalisation: steps(r0, rng) must establish body(r0) for a FRESH r0 about which only rng = [lo <= r0, r0 < hi]
-    is assumed (ghost steps: fcut / lemma instances); then forall r in [lo, hi). body(r) is used and returned.  Everything
+    is assumed (ghost steps: fcut / instances); then forall r in [lo, hi). body(r) is used; returned as a Univ.  Everything
     assumed or derived about r0 is dropped again."""
     r0 = vc.fresh_int('gen_' + var)
     mark = len(vc.pc)
@@ -752,9 +769,9 @@ def forall_intro(vc, name, lo, hi, body, steps, var='i'):
     steps(r0, rng)
     fcut(vc, '%s (at a generic index)' % name, body(r0), [p for p in vc.pc[mark:]])
     del vc.pc[mark:]
-    q = forall_range(lo, hi, body, var)
-    vc.assume(q)
-    return q
+    u = Univ(lo, hi, body, var)
+    vc.assume(u.q)
+    return u
 
 
 def np_var(a, axis=None, ddof=0):
@@ -821,9 +838,11 @@ class RhatSpec:
 
     def defs(self):
         n, m = self.n, self.m
-        return [forall_range(0, m, lambda r: prefix_def(lambda k: SM(r, k), n, lambda t: self.split(r, t)), 'r'),
-                forall_range(0, m, lambda r: prefix_def(lambda k: SV(r, k), n, lambda t: (self.split(r, t) - self.mu(r)) * (self.split(r, t) - self.mu(r))), 'r'),
-                prefix_def(SG, m, self.mu), prefix_def(SB, m, lambda r: (self.mu(r) - self.G) * (self.mu(r) - self.G)), prefix_def(SS, m, self.s2)]
+        dev2 = lambda r, t: (self.split(r, t) - self.mu(r)) * (self.split(r, t) - self.mu(r))
+        return dict(D_SM=Univ(0, m, lambda r: prefix_def(lambda k: SM(r, k), n, lambda t: self.split(r, t)), 'r'),
+                    D_SV=Univ(0, m, lambda r: prefix_def(lambda k: SV(r, k), n, lambda t: dev2(r, t)), 'r'),
+                    D_SG=prefix_def(SG, m, self.mu), D_SB=prefix_def(SB, m, lambda r: (self.mu(r) - self.G) * (self.mu(r) - self.G)),
+                    D_SS=prefix_def(SS, m, self.s2))
 
     def rhat2(self):
         return ((self.nr - 1) / self.nr * self.Wv + self.Bv / self.nr) / self.Wv
@@ -840,15 +859,15 @@ class GelmanRubin(Contract):
         vc.fin_bounds.extend([C, N])
         chains = SArr(Cell(lambda c, t: X(c, t), (ZInt(C), ZInt(N)), 'real'))
         s = ns(C=C, N=N, chains=chains, spec=RhatSpec(C, N), cell_elt=chains.cell.elt)
-        d = s.spec.defs()
-        s.R = dict(C=C >= 1, N=N >= 4, D_SM=d[0], D_SV=d[1], D_SG=d[2], D_SB=d[3], D_SS=d[4], W=s.spec.Wv > 0)
+        s.R = dict(C=C >= 1, N=N >= 4, W=s.spec.Wv > 0)
+        s.R.update(s.spec.defs())
         return s, (chains,), {}
 
     def env(self, vc):
         return dict(np=np_module(var=np_var))
 
     def requires(self, s):
-        return [s.R['C'], ('at least two draws per half chain (sample variance defined)', s.R['N']), s.R['D_SM'], s.R['D_SV'], s.R['D_SG'], s.R['D_SB'], s.R['D_SS'],
+        return [s.R['C'], ('at least two draws per half chain (sample variance defined)', s.R['N']), s.R['D_SM'].q, s.R['D_SV'].q, s.R['D_SG'], s.R['D_SB'], s.R['D_SS'],
                 ('within-sequence variance is positive (chains not all constant)', s.R['W'])]
 
     def hooks(self, s):
@@ -862,15 +881,18 @@ class GelmanRubin(Contract):
         sq = lambda v: v * v
         H = s.H = {}
 
-        def row_sums(k, name, P, D_P, summand, k_base, inst_of=None):
+        def row_sums(k, name, P, D_P, summand, k_base, mean_of=None):
             def h(vc, rec):
                 a, ps = rec['arr'], rec['ps']
                 if a.ndim != 2 or rec.get('axis') != 1 or not rec.get('axioms'):
                     raise OutOfSubset('expected a row sum')
-                A_k = rec['axioms'][0]
+                rows, cols = a.shape
+                A_k = Univ(0, rows, lambda i: z3.And(ps(i, 0) == 0, forall_range(0, cols, lambda j: ps(i, j + 1) == ps(i, j) + a.at(i, j), 'j')), 'i')
+                if not z3.eq(A_k.q, rec['axioms'][0]):
+                    raise OutOfSubset('proof script: np.sum axiom has an unexpected form')
                 base = vc.libcalls['np.sum'][k_base]['arr']
                 shp = fcut(vc, '%s: one row per half chain, n = N div 2 columns' % name,
-                           z3.And(a.shape[0] == m, a.shape[1] == n, base.shape[0] == m, base.shape[1] == n), G0)
+                           z3.And(rows == m, cols == n, base.shape[0] == m, base.shape[1] == n), G0)
 
                 def steps(r0, rng_r):
                     def t_split(t0, rng_t):
@@ -878,22 +900,31 @@ class GelmanRubin(Contract):
                                   z3.And((r0 * n + t0) / (2 * n) == r0 / 2, (r0 * n + t0) % (2 * n) == z3.If(r0 % 2 == 0, t0, n + t0)), G0 + rng_r + rng_t)
                         fcut(vc, 'element (r, t) of the reshaped array is x[r div 2, (r mod 2) n + t]', base.at(r0, t0) == sp.split(r0, t0), G0 + rng_r + rng_t + [f1])
                     F_row = forall_intro(vc, 'row r of the array given to mean / var is the r-th half chain', 0, n, lambda t: base.at(r0, t) == sp.split(r0, t), t_split)
-                    if inst_of is None:
+                    if mean_of is None:
                         F_sum = F_row                   # the array summed IS the base array and the summand IS the half chain
-                        if not z3.eq(F_sum, forall_range(0, n, lambda t: a.at(r0, t) == summand(r0, t), 'i')):
+                        if not z3.eq(F_sum.q, forall_range(0, n, lambda t: a.at(r0, t) == summand(r0, t), 'i')):
                             raise OutOfSubset('proof script: the array summed is not the base array')
                     else:
-                        i1 = fcut(vc, '%s: instance of the row-mean fact' % name, inst_of(vc, r0), [H[1]] + rng_r)
+                        i1 = H[mean_of].inst(vc, r0)
 
                         def t_sum(t0, rng_t):
-                            i2 = fcut(vc, '%s: instance of the row fact' % name, base.at(r0, t0) == sp.split(r0, t0), [F_row] + rng_t)
+                            i2 = F_row.inst(vc, t0)
                             fcut(vc, '%s: summand at a generic index' % name, a.at(r0, t0) == summand(r0, t0), G0 + rng_r + rng_t + [i1, i2, shp])
                         F_sum = forall_intro(vc, '%s: summand of the code = summand of the definition' % name, 0, n, lambda t: a.at(r0, t) == summand(r0, t), t_sum)
-                    d1 = fcut(vc, '%s: defining recursion of the definitional sum at this row' % name, prefix_def(lambda k_: P(r0, k_), n, lambda t: summand(r0, t)), [D_P] + rng_r)
-                    d2 = fcut(vc, '%s: recursion of the code sum at this row' % name, prefix_def(lambda k_: ps(r0, k_), n, lambda t: a.at(r0, t)), [A_k, shp] + rng_r)
+                    d1 = fcut(vc, '%s: defining recursion of the definitional sum at this row' % name,
+                              prefix_def(lambda k_: P(r0, k_), n, lambda t: summand(r0, t)), [D_P.inst(vc, r0)] + rng_r)
+                    ir = A_k.inst(vc, r0)
+                    z0 = fcut(vc, '%s: code sum starts at 0' % name, ps(r0, 0) == 0, [ir, shp] + rng_r)
+                    inner = Univ(0, cols, lambda j: ps(r0, j + 1) == ps(r0, j) + a.at(r0, j), 'j')
+                    iq = fcut(vc, '%s: recursion of the code sum at this row (columns)' % name, inner.q, [ir, shp] + rng_r)
+
+                    def t_rec(t0, rng_t):
+                        fcut(vc, '%s: recursion of the code sum at a generic column' % name, ps(r0, t0 + 1) == ps(r0, t0) + a.at(r0, t0), [inner.inst(vc, t0), shp] + rng_t)
+                    F_rec = forall_intro(vc, '%s: recursion of the code sum over [0, n)' % name, 0, n, lambda t: ps(r0, t + 1) == ps(r0, t) + a.at(r0, t), t_rec)
+                    d2 = fcut(vc, '%s: recursion of the code sum at this row' % name, prefix_def(lambda k_: ps(r0, k_), n, lambda t: a.at(r0, t)), [z0, F_rec.q])
                     L = use(stmt_sum_ext(n, lambda t: a.at(r0, t), lambda t: summand(r0, t), lambda k_: ps(r0, k_), lambda k_: P(r0, k_)))
                     vc.assume(L)            # LemmaSumExt
-                    fcut(vc, '%s: code row sum = definitional sum' % name, ps(r0, n) == P(r0, n), [L, d1, d2, F_sum] + G0)
+                    fcut(vc, '%s: code row sum = definitional sum' % name, ps(r0, n) == P(r0, n), [L, d1, d2, F_sum.q] + G0)
                 H[k] = forall_intro(vc, '%s: code row sums = definitional sums, every row' % name, 0, m, lambda r: ps(r, n) == P(r, n), steps, var='r')
             return h
 
@@ -906,13 +937,19 @@ class GelmanRubin(Contract):
                 shp = fcut(vc, '%s: one entry per half chain' % name, a.shape[0] == m, G0)
 
                 def steps(r0, rng_r):
-                    ii = [fcut(vc, '%s: instance of an established fact' % name, f, hy + rng_r) for f, hy in insts(vc, r0)]
-                    fcut(vc, '%s: summand at a generic index' % name, a.at(r0) == summand(r0), G0 + rng_r + ii + [shp])
+                    fcut(vc, '%s: summand at a generic index' % name, a.at(r0) == summand(r0), G0 + rng_r + insts(vc, r0) + [shp])
                 F_sum = forall_intro(vc, '%s: summand of the code = summand of the definition' % name, 0, m, lambda r: a.at(r) == summand(r), steps)
-                d2 = fcut(vc, '%s: recursion of the code sum' % name, prefix_def(ps, m, lambda i: a.at(i)), ax + [shp])
+                inner = Univ(0, a.shape[0], lambda i: ps(i + 1) == ps(i) + a.at(i), 'i')
+                if not z3.eq(inner.q, ax[1]):
+                    raise OutOfSubset('proof script: np.sum axiom has an unexpected form')
+
+                def t_rec(t0, rng_t):
+                    fcut(vc, '%s: recursion of the code sum at a generic index' % name, ps(t0 + 1) == ps(t0) + a.at(t0), [inner.inst(vc, t0), shp] + rng_t)
+                F_rec = forall_intro(vc, '%s: recursion of the code sum over [0, m)' % name, 0, m, lambda t: ps(t + 1) == ps(t) + a.at(t), t_rec)
+                d2 = fcut(vc, '%s: recursion of the code sum' % name, prefix_def(ps, m, lambda i: a.at(i)), [ax[0], F_rec.q])
                 L = use(stmt_sum_ext(m, lambda i: a.at(i), summand, ps, P))
                 vc.assume(L)                # LemmaSumExt
-                H[k] = fcut(vc, '%s: code sum = definitional sum' % name, T(rec['res']) == P(m), [L, D_P, d2, F_sum, shp] + G0)
+                H[k] = fcut(vc, '%s: code sum = definitional sum' % name, T(rec['res']) == P(m), [L, D_P, d2, F_sum.q, shp] + G0)
                 if after:
                     after(vc)
             return h
@@ -923,17 +960,15 @@ class GelmanRubin(Contract):
             F_nn = forall_intro(vc, 'a square is non-negative', 0, m, lambda r: v(r) >= 0, lambda r0, rng: None)
             L = use(stmt_monotone_cum(m, z3.IntVal(0), m, v, SB))
             vc.assume(L)                    # LemmaMonotoneCum
-            H['SB>=0'] = fcut(vc, 'a sum of squares is non-negative', SB(m) >= 0, [L, F_nn, R_['D_SB']] + G0)
-        mean_inst = lambda k: (lambda vc, r0: [(psn(vc, k)(r0, n) == SM(r0, n), [H[k]])])
+            H['SB>=0'] = fcut(vc, 'a sum of squares is non-negative', SB(m) >= 0, [L, F_nn.q, R_['D_SB']] + G0)
+        mean_inst = lambda vc, r0: [H[0].inst(vc, r0)]
         return {('np.sum', 0): row_sums(0, 'sequence means', SM, R_['D_SM'], sp.split, 0),
                 ('np.sum', 1): row_sums(1, 'sequence means inside var', SM, R_['D_SM'], sp.split, 1),
-                ('np.sum', 2): row_sums(2, 'squared deviations', SV, R_['D_SV'], lambda r, t: sq(sp.split(r, t) - sp.mu(r)), 1,
-                                        lambda vc, r0: psn(vc, 1)(r0, n) == SM(r0, n)),
-                ('np.sum', 3): vec_sum(3, 'grand mean', SG, R_['D_SG'], sp.mu, mean_inst(0)),
+                ('np.sum', 2): row_sums(2, 'squared deviations', SV, R_['D_SV'], lambda r, t: sq(sp.split(r, t) - sp.mu(r)), 1, mean_of=1),
+                ('np.sum', 3): vec_sum(3, 'grand mean', SG, R_['D_SG'], sp.mu, mean_inst),
                 ('np.sum', 4): vec_sum(4, 'between-sequence sum of squares', SB, R_['D_SB'], lambda r: sq(sp.mu(r) - sp.G),
-                                       lambda vc, r0: mean_inst(0)(vc, r0) + [(H[3], [H[3]])], after=nonneg),
-                ('np.sum', 5): vec_sum(5, 'within-sequence variance', SS, R_['D_SS'], sp.s2,
-                                       lambda vc, r0: [(psn(vc, 2)(r0, n) == SV(r0, n), [H[2]])])}
+                                       lambda vc, r0: mean_inst(vc, r0) + [H[3]], after=nonneg),
+                ('np.sum', 5): vec_sum(5, 'within-sequence variance', SS, R_['D_SS'], sp.s2, lambda vc, r0: [H[2].inst(vc, r0)])}
 
     def ensures(self, s, result):
         sp = s.spec
@@ -947,9 +982,369 @@ class MonotoneCum(LemmaMonotoneCum):
     prop = 'C16'
 
 
+# ================================================================ 5. sample_object_to_dict / numpy_to_python_type
+Obj = z3.DeclareSort('Obj')
+KIND = z3.Function('kind', Obj, I)            # 0 python non-dict, 1 python dict, 2 numpy array, 3 numpy integer scalar, 4 numpy floating scalar, 5 other numpy type
+TOLIST, TOINT, TOFLOAT = (z3.Function(nm, Obj, Obj) for nm in ('tolist', 'py_int', 'py_float'))
+K_OUTPUTS, K_META = z3.Const('key_outputs', Key), z3.Const('key_meta', Key)
+KEY_NAMES = {'outputs': K_OUTPUTS, 'meta': K_META}
+
+
+def fa_key(body):
+    q = z3.Const('q@k', Key)
+    return z3.ForAll([q], body(q))
+
+
+def fa_obj_key(body):
+    o, r = z3.Const('o@k', Obj), z3.Const('r@k', Key)
+    return z3.ForAll([o, r], body(o, r))
+
+
+def convertible(o):
+    return z3.And(KIND(o) >= 2, KIND(o) <= 4)
+
+
+def py_value(o):
+    """numpy arrays -> .tolist(), numpy integers -> int(), numpy floats -> float(); every other value is kept"""
+    return z3.If(KIND(o) == 2, TOLIST(o), z3.If(KIND(o) == 3, TOINT(o), z3.If(KIND(o) == 4, TOFLOAT(o), o)))
+
+
+def conv_axioms():
+    o = z3.Const('o@c', Obj)
+    return [z3.ForAll([o], z3.And(KIND(TOLIST(o)) == 0, KIND(TOINT(o)) == 0, KIND(TOFLOAT(o)) == 0), patterns=[z3.MultiPattern(TOLIST(o), TOINT(o), TOFLOAT(o))])]
+
+
+class NameKey(SKey):
+    """a dict key (attribute name); comparison with a string literal goes through the table of declared names"""
+    __slots__ = ()
+
+    def __eq__(self, o):
+        if isinstance(o, str):
+            if o == '':
+                return False                     # '' is never an attribute name / key
+            if o not in KEY_NAMES:
+                raise OutOfSubset('string key %r is not declared' % o)
+            return SBool(self.t == KEY_NAMES[o])
+        return SKey.__eq__(self, o)
+
+    def __ne__(self, o):
+        r = self.__eq__(o)
+        return (not r) if isinstance(r, bool) else ~r
+
+    __hash__ = SKey.__hash__
+
+
+class Heap:
+    """contents of the python dicts that are VALUES (kind 1 objects): ndom(o, r) - key r present in dict o, nval(o, r) - its value"""
+
+    def __init__(self, ndom, nval):
+        self.ndom, self.nval = ndom, nval
+
+    def snapshot(self):
+        return Heap(self.ndom, self.nval)
+
+    def _vc_havoc(self, name='hv'):
+        vc = cur()
+        d, v = vc.fresh_fn(name + '_ndom', Obj, Key, B), vc.fresh_fn(name + '_nval', Obj, Key, Obj)
+        self.ndom, self.nval = (lambda o, r: d(o, r)), (lambda o, r: v(o, r))
+
+
+class ObjVal(Sym):
+    """a python object of the uninterpreted sort Obj (a dict value)"""
+
+    def __init__(self, t, hp):
+        self.t, self.hp = t, hp
+
+    def _vc_isinstance(self, cls):
+        classes = cls if isinstance(cls, tuple) else (cls,)
+        if classes != (dict,):
+            raise OutOfSubset('isinstance(value, %r)' % (cls,))
+        return cur().branch(KIND(self.t) == 1)
+
+    def _need_dict(self, what):
+        cur().oblige('call-pre[%s: the object is a dict]' % what, KIND(self.t) == 1)
+
+    def items(self):
+        self._need_dict('.items()')
+        o, hp = self.t, self.hp
+        ndom = hp.ndom
+        return _Iterable(lambda: SetIter(Key, lambda r: ndom(o, r), lambda r: (NameKey(r), ObjVal(hp.nval(o, r), hp))))
+
+    def __getitem__(self, key):
+        self._need_dict('d[key]')
+        cur().oblige('call-pre[key in nested dict]', self.hp.ndom(self.t, key.t))
+        return ObjVal(self.hp.nval(self.t, key.t), self.hp)
+
+    def __setitem__(self, key, value):
+        if not isinstance(value, ObjVal) or not isinstance(key, SKey):
+            raise OutOfSubset('nested dict item of an unmodelled type')
+        self._need_dict('d[key] = value')
+        o, k, v, hp = self.t, key.t, value.t, self.hp
+        ndom, nval = hp.ndom, hp.nval
+        hp.ndom = lambda o2, r: z3.Or(ndom(o2, r), z3.And(o2 == o, r == k))
+        hp.nval = lambda o2, r: z3.If(z3.And(o2 == o, r == k), v, nval(o2, r))
+
+    def tolist(self):
+        cur().oblige('call-pre[.tolist(): a numpy object]', KIND(self.t) >= 2)
+        return ObjVal(TOLIST(self.t), self.hp)
+
+
+class _Iterable:
+    def __init__(self, mk):
+        self._vc_iter = mk
+
+    def __iter__(self):
+        raise OutOfSubset('python iteration over a symbolic dict (needs a loop contract)')
+
+
+class PyDict(Sym):
+    """a python dict with symbolic key set: dom(key), val(key) (an Obj)"""
+
+    def __init__(self, dom, val, hp):
+        self.dom, self.val, self.hp = dom, val, hp
+        self.t = None
+
+    def snapshot(self):
+        return PyDict(self.dom, self.val, self.hp)
+
+    def _vc_havoc(self, name='hv'):
+        vc = cur()
+        d, v = vc.fresh_fn(name + '_dom', Key, B), vc.fresh_fn(name + '_val', Key, Obj)
+        self.dom, self.val = (lambda q: d(q)), (lambda q: v(q))
+
+    def items(self):
+        dom = self.dom
+        return _Iterable(lambda: SetIter(Key, dom, lambda q: (NameKey(q), ObjVal(self.val(q), self.hp))))
+
+    def __getitem__(self, key):
+        cur().oblige('call-pre[key in dict]', self.dom(key.t))
+        return ObjVal(self.val(key.t), self.hp)
+
+    def __setitem__(self, key, value):
+        if not isinstance(value, ObjVal) or not isinstance(key, SKey):
+            raise OutOfSubset('dict item of an unmodelled type')
+        k, v = key.t, value.t
+        dom, val = self.dom, self.val
+        self.dom = lambda q: z3.Or(dom(q), q == k)
+        self.val = lambda q: z3.If(q == k, v, val(q))
+
+
+class _TypeOf:
+    """type(value): module and name answer through the kind of the value (assumed, sanity-tested: for numpy types the class name
+    contains 'array' exactly for arrays, else 'int' exactly for integer scalars, else 'float' exactly for floating scalars)"""
+
+    def __init__(self, o):
+        self.o = o
+
+    @property
+    def __module__(self):
+        return _ModName(self.o)
+
+
+class _ModName:
+    def __init__(self, o):
+        self.o = o
+
+    def __eq__(self, other):
+        if other != 'numpy':
+            raise OutOfSubset('module name compared with %r' % (other,))
+        return cur().branch(KIND(self.o) >= 2)
+
+    __hash__ = object.__hash__
+
+
+class _TypeStr:
+    def __init__(self, o):
+        self.o = o
+
+    def __contains__(self, sub):
+        k = {'array': 2, 'int': 3, 'float': 4}.get(sub)
+        if k is None:
+            raise OutOfSubset('substring test %r on a type name' % (sub,))
+        return cur().branch(KIND(self.o) == k)
+
+
+def vc_type(x, *a):
+    if isinstance(x, ObjVal) and not a:
+        return _TypeOf(x.t)
+    if isinstance(x, Sym):
+        raise OutOfSubset('type(%s)' % type(x).__name__)
+    return type(x, *a)
+
+
+def vc_str(x=''):
+    if isinstance(x, _TypeOf):
+        return _TypeStr(x.o)
+    if isinstance(x, Sym):
+        raise OutOfSubset('str(%s)' % type(x).__name__)
+    return str(x)
+
+
+def vc_int_obj(x=0, *a):
+    if isinstance(x, ObjVal):
+        cur().oblige('call-pre[int(): a numpy scalar]', z3.Or(KIND(x.t) == 3, KIND(x.t) == 4))
+        return ObjVal(TOINT(x.t), x.hp)
+    return pyspec.vc_int(x, *a)
+
+
+def vc_float_obj(x=0.0):
+    if isinstance(x, ObjVal):
+        cur().oblige('call-pre[float(): a numpy scalar]', z3.Or(KIND(x.t) == 3, KIND(x.t) == 4))
+        return ObjVal(TOFLOAT(x.t), x.hp)
+    return pyspec.vc_float(x)
+
+
+DOM0, VAL0 = z3.Function('dom0', Key, B), z3.Function('val0', Key, Obj)
+NDOM0, NVAL0 = z3.Function('ndom0', Obj, Key, B), z3.Function('nval0', Obj, Key, Obj)
+OWN = z3.Function('owner', Obj, Key)
+
+
+class NumpyToPython(Contract):
+    target = 'elfi/methods/utils.py::numpy_to_python_type'
+    prop = 'C16'
+    fin = 3
+
+    def setup(self, vc):
+        vc.axioms = conv_axioms()
+        hp = Heap(lambda o, r: NDOM0(o, r), lambda o, r: NVAL0(o, r))
+        data = PyDict(lambda q: DOM0(q), lambda q: VAL0(q), hp)
+        return ns(data=data, hp=hp), (data,), {}
+
+    def env(self, vc):
+        return {'np': np_module(), 'type': vc_type, 'str': vc_str, 'int': vc_int_obj, 'float': vc_float_obj}
+
+    def requires(self, s):
+        return [('distinct keys hold distinct dict objects (no aliasing of nested dicts)',
+                 fa_key(lambda q: z3.Implies(z3.And(DOM0(q), KIND(VAL0(q)) == 1), OWN(VAL0(q)) == q)))]
+
+    @staticmethod
+    def _touched(V, o):
+        return z3.And(KIND(o) == 1, DOM0(OWN(o)), VAL0(OWN(o)) == o, V(OWN(o)))
+
+    def _inv0(self, s, l):
+        V = l.it.visited
+        d, hp = s.data, s.hp
+        return [('the key set does not change', fa_key(lambda q: d.dom(q) == DOM0(q))),
+                ('visited values are converted, the others untouched', fa_key(lambda q: z3.Implies(DOM0(q), d.val(q) == z3.If(V(q), py_value(VAL0(q)), VAL0(q))))),
+                ('key sets of nested dicts do not change', fa_obj_key(lambda o, r: hp.ndom(o, r) == NDOM0(o, r))),
+                ('entries of visited nested dicts are converted, every other nested entry untouched',
+                 fa_obj_key(lambda o, r: z3.Implies(NDOM0(o, r), hp.nval(o, r) == z3.If(self._touched(V, o), py_value(NVAL0(o, r)), NVAL0(o, r)))))]
+
+    def _inv1(self, s, l):
+        V2 = l.it.visited
+        d, hp, e = s.data, s.hp, l.entry
+        o = l.val.t
+        return [('the top-level dict is not touched by the inner loop', fa_key(lambda q: z3.And(d.dom(q) == e.data.dom(q), d.val(q) == e.data.val(q)))),
+                ('key sets of nested dicts do not change', fa_obj_key(lambda o2, r: hp.ndom(o2, r) == e.hp.ndom(o2, r))),
+                ('visited entries of THIS nested dict are converted, everything else untouched',
+                 fa_obj_key(lambda o2, r: z3.Implies(e.hp.ndom(o2, r), hp.nval(o2, r) == z3.If(z3.And(o2 == o, V2(r)), py_value(e.hp.nval(o2, r)), e.hp.nval(o2, r)))))]
+
+    @property
+    def loops(self):
+        return {0: Loop(inv=self._inv0, modifies=lambda s, l: [s.data, s.hp]),
+                1: Loop(inv=self._inv1, modifies=lambda s, l: [s.data, s.hp], snapshot=lambda s, l: dict(data=s.data.snapshot(), hp=s.hp.snapshot()))}
+
+    def ensures(self, s, result):
+        d, hp = s.data, s.hp
+        isdictval = lambda o: z3.And(KIND(o) == 1, DOM0(OWN(o)), VAL0(OWN(o)) == o)
+        return [('no key is added or removed (top level and nested dicts)', z3.And(fa_key(lambda q: d.dom(q) == DOM0(q)), fa_obj_key(lambda o, r: hp.ndom(o, r) == NDOM0(o, r)))),
+                ('every top-level value: numpy array -> list, numpy integer -> int, numpy float -> float, anything else kept',
+                 fa_key(lambda q: z3.Implies(DOM0(q), d.val(q) == py_value(VAL0(q))))),
+                ('every entry of a dict that is a top-level value: converted the same way (one nesting level)',
+                 fa_obj_key(lambda o, r: z3.Implies(z3.And(isdictval(o), NDOM0(o, r)), hp.nval(o, r) == py_value(NVAL0(o, r))))),
+                ('entries of any other dict (deeper levels, unrelated dicts) are not touched',
+                 fa_obj_key(lambda o, r: z3.Implies(z3.And(z3.Not(isdictval(o)), NDOM0(o, r)), hp.nval(o, r) == NVAL0(o, r)))),
+                ('afterwards no top-level value and no entry of a top-level dict value is a numpy array / integer / float',
+                 z3.And(fa_key(lambda q: z3.Implies(DOM0(q), z3.Not(convertible(d.val(q))))),
+                        fa_obj_key(lambda o, r: z3.Implies(z3.And(isdictval(o), NDOM0(o, r)), z3.Not(convertible(hp.nval(o, r)))))))]
+
+
+ATTR_DOM, ATTR_VAL = z3.Function('attr_dom', Key, B), z3.Function('attr_val', Key, Obj)
+SKIP = z3.Const('key_skip', Key)
+
+
+class _ElemStub:
+    """an object whose __dict__ is the symbolic attribute dict"""
+    __slots__ = ('_d',)
+
+    def __init__(self, d):
+        object.__setattr__(self, '_d', d)
+
+    @property
+    def __dict__(self):
+        return self._d
+
+
+class SampleObjectToDict(Contract):
+    target = 'elfi/methods/utils.py::sample_object_to_dict'
+    prop = 'C16'
+    fin = 3
+
+    def __init__(self, skip):
+        self.skip = skip                # 'given' (any key) | 'default' ('')
+        self.label = 'skip-' + skip
+
+    def setup(self, vc):
+        hp = Heap(lambda o, r: NDOM0(o, r), lambda o, r: NVAL0(o, r))
+        data = PyDict(lambda q: DOM0(q), lambda q: VAL0(q), hp)
+        attrs = PyDict(lambda q: ATTR_DOM(q), lambda q: ATTR_VAL(q), hp)
+        s = ns(data=data, hp=hp, attrs=attrs, hp_fns=(hp.ndom, hp.nval), attr_fns=(attrs.dom, attrs.val))
+        kw = dict(skip=NameKey(SKIP)) if self.skip == 'given' else {}
+        return s, (data, _ElemStub(attrs)), kw
+
+    def _skipped(self, q):
+        return z3.Or(q == K_OUTPUTS, q == SKIP) if self.skip == 'given' else (q == K_OUTPUTS)
+
+    def _copied(self, q):
+        return z3.And(ATTR_DOM(q), z3.Not(self._skipped(q)), q != K_META)
+
+    def _meta_on(self):
+        return z3.And(ATTR_DOM(K_META), z3.Not(self._skipped(K_META)))
+
+    def _meta(self, q):
+        return z3.And(self._meta_on(), NDOM0(ATTR_VAL(K_META), q))
+
+    def requires(self, s):
+        return [K_OUTPUTS != K_META, ('meta is a dict', z3.Implies(ATTR_DOM(K_META), KIND(ATTR_VAL(K_META)) == 1)),
+                ('no meta key equals the name of a copied attribute (the result would depend on the attribute order)',
+                 fa_key(lambda q: z3.Not(z3.And(self._copied(q), self._meta(q)))))]
+
+    def _state(self, d, V):
+        """data after the attributes in V have been processed"""
+        VM = V(K_META)
+        return [('keys: old keys + copied attributes + meta keys',
+                 fa_key(lambda q: d.dom(q) == z3.Or(DOM0(q), z3.And(V(q), self._copied(q)), z3.And(VM, self._meta(q))))),
+                ('values: attribute value / meta value / old value',
+                 fa_key(lambda q: d.val(q) == z3.If(z3.And(V(q), self._copied(q)), ATTR_VAL(q), z3.If(z3.And(VM, self._meta(q)), NVAL0(ATTR_VAL(K_META), q), VAL0(q)))))]
+
+    def _inv0(self, s, l):
+        return self._state(s.data, l.it.visited)
+
+    def _inv1(self, s, l):
+        V2 = l.it.visited
+        d, e = s.data, l.entry.data
+        mo = ATTR_VAL(K_META)
+        return [('the attribute being processed is meta', z3.And(l.key.t == K_META, self._meta_on())),
+                ('keys: state at the start of the meta loop + visited meta keys', fa_key(lambda q: d.dom(q) == z3.Or(e.dom(q), V2(q)))),
+                ('values: visited meta keys hold the meta values', fa_key(lambda q: d.val(q) == z3.If(V2(q), NVAL0(mo, q), e.val(q))))]
+
+    @property
+    def loops(self):
+        return {0: Loop(inv=self._inv0, modifies=lambda s, l: [s.data]),
+                1: Loop(inv=self._inv1, modifies=lambda s, l: [s.data], snapshot=lambda s, l: dict(data=s.data.snapshot()))}
+
+    def ensures(self, s, result):
+        allv = lambda q: z3.BoolVal(True)
+        full = lambda q: ATTR_DOM(q)
+        return [(nm, f) for nm, f in self._state(s.data, full)] + \
+            [('the object and its meta dict are not modified',
+              z3.BoolVal(s.hp.ndom is s.hp_fns[0] and s.hp.nval is s.hp_fns[1] and s.attrs.dom is s.attr_fns[0] and s.attrs.val is s.attr_fns[1]))]
+
+
 CONTRACTS = [SampleInit('plain'), SampleInit('weighted'), SamplesArray(), NSamples(), Dim(), Discrepancies(True), Discrepancies(False),
              SampleMeans(True), SampleMeans(False), SampleCIs(True), SampleCIs(False), SampleQuantiles(True), SampleQuantiles(False), SumExt(),
-             BolfiInit(), GelmanRubin(), MonotoneCum()]
+             BolfiInit(), GelmanRubin(), MonotoneCum(),
+             NumpyToPython(), SampleObjectToDict('given'), SampleObjectToDict('default')]
 TRUSTED_BASE = []
 ASSUMPTIONS = []
 NOT_PROVED = []
